@@ -685,6 +685,43 @@ impl<F: RF> Curve<F> {
     }
 }
 
+/// fixed-base multiplication table (radix 16): only reference additions, 64 per multiplication
+pub struct FixedBase<F: RF> {
+    c: Curve<F>,
+    t: Vec<Vec<Pt<F>>>,
+}
+impl<F: RF> FixedBase<F> {
+    pub fn new(c: &Curve<F>, base: &Pt<F>, bits: usize) -> Self {
+        let digits = (bits + 3) / 4;
+        let mut t = Vec::with_capacity(digits);
+        let mut b = base.clone();
+        for _ in 0..digits {
+            let mut row = vec![Pt::Inf];
+            for d in 1..16 {
+                let prev: &Pt<F> = &row[d - 1];
+                row.push(c.add(prev, &b));
+            }
+            // next base = 16 * b
+            b = c.add(&row[15], &b);
+            t.push(row);
+        }
+        FixedBase { c: c.clone(), t }
+    }
+    pub fn mul(&self, k: &BigUint) -> Pt<F> {
+        assert!(k.bits() <= 4 * self.t.len());
+        let bytes = k.to_bytes_le();
+        let mut acc = Pt::Inf;
+        for (j, row) in self.t.iter().enumerate() {
+            let byte = bytes.get(j / 2).copied().unwrap_or(0);
+            let d = if j % 2 == 0 { byte & 15 } else { byte >> 4 } as usize;
+            if d != 0 {
+                acc = self.c.add(&acc, &row[d]);
+            }
+        }
+        acc
+    }
+}
+
 pub fn e1() -> Curve<Q1> {
     Curve { a: Q1::zero(), b: Q1::from_u64(4) }
 }
